@@ -8,22 +8,8 @@
   day map, and any function `yearOf` from days to years.
 -/
 import AcbModel.Lemmas.Costs
-namespace Acb.Costs
-
-/-- Facts about a completed run, assembled once. -/
-theorem run_facts {yearOf : Int → Int} {rows : List Row} {σ : List Nat → List Nat} {τ : List Int → List Int}
-    (hwf : WF rows) (hσ : IsOrder σ) (hτ : IsOrder τ) {c : Result}
-    (h : calcTotalCosts yearOf rows σ τ = .ok c) :
-    ∃ st, Inv1 rows st ∧ Inv2 rows st (sortDays (τ st.days)) (loop2 st σ τ) ∧
-      c = { secs := st.secs, days := sortDays (τ st.days), tab := (loop2 st σ τ).tab,
-            yearly := yearly yearOf (loop2 st σ τ).tab.total st.days τ, notes := st.notes } := by
-  unfold calcTotalCosts at h
-  split at h
-  · cases h
-  · rename_i st hst
-    have inv : Inv1 rows st := by simpa using loop1_inv (P := []) rows Inv1.init hst
-    simp only [Except.ok.injEq] at h
-    exact ⟨st, inv, loop2_inv hwf inv hσ hτ, h.symm⟩
+namespace Acb
+open Acb.Costs
 
 /-- **C17 (no panic).**  On rows as the ledger produces them (`WF`) none of the panic sites of
     `calc_max_day_cost_per_sec` is reached. -/
@@ -99,20 +85,6 @@ theorem C17_yearly_is_max {yearOf : Int → Int} {rows : List Row} {σ : List Na
   | none => exact absurd hy (yi.none y hm d hd)
   | some b => exact ⟨b, hm, yi.some y b hm⟩
 
-theorem mem_dedup {α : Type} [DecidableEq α] (l : List α) (x : α) : x ∈ dedup l ↔ x ∈ l := by
-  induction l with
-  | nil => simp [dedup]
-  | cons a as ih =>
-    unfold dedup
-    split
-    · rename_i ha
-      rw [ih]; constructor
-      · exact fun h => by simp [h]
-      · intro h; rcases List.mem_cons.mp h with e | e
-        · exact e ▸ ha
-        · exact e
-    · simp [ih]
-
 /-- the years listed in the yearly table -/
 theorem C17_years_listed (yearOf : Int → Int) (c : Result) :
     ∀ y, y ∈ c.years yearOf ↔ ∃ d ∈ c.days, yearOf d = y := by
@@ -147,53 +119,13 @@ theorem C17_ignored_complete (rows : List Row) (r : Row) (hr : r ∈ rows) (hc :
   obtain ⟨n, hn⟩ := this
   exact ⟨n, hn, by simp only [notesOf, List.mem_filterMap]; exact ⟨r, hr, hn⟩⟩
 
-/-- `Figure` determines the figure, and `figure` computes it. -/
-theorem Figure_unique {rows : List Row} {s : Nat} {d : Int} {v w : Rat}
-    (hv : Figure rows s d v) (hw : Figure rows s d w) : v = w := by
-  rcases hv with ⟨_, h1, h2⟩ | ⟨hn, h1⟩ <;> rcases hw with ⟨hne, h3, h4⟩ | ⟨hn', h3⟩
-  · have := h2 w h3; have := h4 v h1; grind
-  · exact absurd hn' ‹_›
-  · exact absurd hn hne
-  · rw [h1, h3]
+/-- `Figure` pins the figure down uniquely, and the executable `figure` (which the driver evaluates on
+    the implementation's own rows as the property's oracle) is that figure. -/
+theorem C17_figure_determined (rows : List Row) (s : Nat) (d : Int) :
+    Figure rows s d (figure rows s d) ∧ ∀ v, Figure rows s d v → v = figure rows s d :=
+  ⟨figure_spec rows s d, fun _ hv => Figure_unique hv (figure_spec rows s d)⟩
 
-theorem figure_spec (rows : List Row) (s : Nat) (d : Int) : Figure rows s d (figure rows s d) := by
-  unfold figure Figure
-  cases ht : today rows s d with
-  | nil => exact Or.inr ⟨rfl, rfl⟩
-  | cons p ps =>
-    left
-    refine ⟨by simp, ?_⟩
-    have key : ∀ (l : List Rat) (a : Rat), (l.foldl max a = a ∨ l.foldl max a ∈ l) ∧ a ≤ l.foldl max a ∧
-        ∀ x ∈ l, x ≤ l.foldl max a := by
-      intro l
-      induction l with
-      | nil => intro a; simp
-      | cons x xs ih =>
-        intro a
-        obtain ⟨h1, h2, h3⟩ := ih (max a x)
-        simp only [List.foldl_cons]
-        refine ⟨?_, by grind, ?_⟩
-        · rcases h1 with e | e
-          · by_cases hax : a ≤ x
-            · right; rw [e]; have : max a x = x := by grind
-              simp [this]
-            · left; rw [e]; grind
-          · right; simp [e]
-        · intro y hy
-          rcases List.mem_cons.mp hy with e | e
-          · subst e; grind
-          · exact h3 y e
-    obtain ⟨h1, h2, h3⟩ := key ps p
-    constructor
-    · rcases h1 with e | e
-      · simp [e]
-      · simp [e]
-    · intro x hx
-      rcases List.mem_cons.mp hx with e | e
-      · subst e; exact h2
-      · exact h3 x e
-
-end Acb.Costs
+end Acb
 
 namespace Acb.Costs
 /-! Non-vacuity: three securities, a security bought and sold out on one day (the F-17 shape), a
